@@ -228,7 +228,8 @@ func (runInfo *runInfoStruct) invokeMapExpr(expr *ast.MapExpr) {
 		if runInfo.err != nil {
 			return
 		}
-		key, runInfo.err = runInfo.convertValue(runInfo.rv, keyType)
+		// the key is the value read before its value expression runs
+		key, runInfo.err = runInfo.convertValue(detachValue(runInfo.rv), keyType)
 		if runInfo.err != nil {
 			runInfo.err = newStringError(expr, "cannot use type "+key.Type().String()+" as type "+keyType.String()+" as map key")
 			runInfo.rv = nilValue
